@@ -129,5 +129,9 @@ func main() {
 			}
 		}
 		emit(res)
+		if sim.Tainted.Load() {
+			// goroutines of the library are stuck for good in this process: ask the parent for a fresh one
+			os.Exit(75)
+		}
 	}
 }
